@@ -439,8 +439,8 @@ def b_chain(P, steps):
     elif src == "Elbow":
         sh = cb.Elbow(*_elbow_args(P))
         kinds.append("solid")
-    elif src == "ExtrudedRing":
-        sh = _ring(P, 8)
+    elif src in ("ExtrudedRing", "ExtrudedRing6"):
+        sh = _ring(P, 6 if src.endswith("6") else 8)
         kinds.append("ring")
     else:
         raise KeyError(src)
@@ -465,7 +465,8 @@ def b_chain(P, steps):
 
     used_faces = set()
     start_end = (0, True)   # which shape currently is the start end of the chain, and through which of its faces
-    nv = {"solid": 34, "cyl": 34, "ring": 32}[kinds[0]]
+    segs = [6 if src == "ExtrudedRing6" else 8]   # segments around the circumference, per shape
+    nv = {"solid": 34, "cyl": 34, "ring": 4 * segs[0]}[kinds[0]]
     for st in steps[1:]:
         name, _, opt = st.partition(":")
         if opt == "start":
@@ -477,12 +478,14 @@ def b_chain(P, steps):
             if (prev_i, start) in used_faces:
                 raise ValueError("two shapes chained onto the same face")
             used_faces.add((prev_i, start))
-        nv += {"cylinder": 17, "frustum": 17, "elbow": 17, "hemisphere": 18, "expand": 16, "ring_chain": 16,
-               "contract": 16, "fill": 18}[name]
         prev = shapes[prev_i]
         pk = kinds[prev_i]
-        if not step_ok(pk, name):
+        ns = segs[prev_i]
+        if not step_ok(pk, name) or (name == "fill" and ns != 8):
             raise ValueError("step %s cannot follow a %s shape" % (name, pk))
+        nv += {"cylinder": 17, "frustum": 17, "elbow": 17, "hemisphere": 18, "expand": 2 * ns, "ring_chain": 2 * ns,
+               "contract": 2 * ns, "fill": 18}[name]
+        segs.append(ns if name in ("expand", "ring_chain", "contract") else 8)
         j = len(shapes)
         axial_side = "bottom" if start else "top"
         if name == "cylinder":
@@ -517,17 +520,17 @@ def b_chain(P, steps):
             new = cb.ExtrudedRing.expand(prev, prev.sketch_1.radius * 0.4)
             new.chop_radial(count=3)
             kinds.append("ring")
-            interfaces.append(dict(i=prev_i, j=j, fa=shellb(prev, pk), sa="right", fb=allb(new), sb="left", count=16))
+            interfaces.append(dict(i=prev_i, j=j, fa=shellb(prev, pk), sa="right", fb=allb(new), sb="left", count=2 * ns))
         elif name == "ring_chain":
             new = cb.ExtrudedRing.chain(prev, P.l(0.9), start_face=start)
             new.chop_axial(count=4)
             kinds.append("ring")
-            interfaces.append(dict(i=prev_i, j=j, fa=allb(prev), sa=axial_side, fb=allb(new), sb="bottom", count=16))
+            interfaces.append(dict(i=prev_i, j=j, fa=allb(prev), sa=axial_side, fb=allb(new), sb="bottom", count=2 * ns))
         elif name == "contract":
             new = cb.ExtrudedRing.contract(prev, prev.sketch_1.inner_radius * 0.5)
             new.chop_radial(count=3)
             kinds.append("ring")
-            interfaces.append(dict(i=prev_i, j=j, fa=allb(prev), sa="left", fb=allb(new), sb="right", count=16))
+            interfaces.append(dict(i=prev_i, j=j, fa=allb(prev), sa="left", fb=allb(new), sb="right", count=2 * ns))
         elif name == "fill":
             new = cb.Cylinder.fill(prev)
             new.chop_radial(count=3)
@@ -545,15 +548,17 @@ STEP_KIND = {"cylinder": "cyl", "frustum": "solid", "elbow": "solid", "hemispher
 
 def random_chain(rng, maxlen=4):
     """source, then steps on the end side, then steps on the start side (never two shapes on one face)"""
-    src = rng.choice(["Cylinder", "Cylinder", "Frustum", "Elbow", "ExtrudedRing"])
+    src = rng.choice(["Cylinder", "Cylinder", "Frustum", "Elbow", "ExtrudedRing", "ExtrudedRing6"])
     steps = [src]
     n = rng.randint(2, maxlen)
     n_start = rng.choice([0, 0, 1, 1, 2]) if n > 2 else rng.choice([0, 0, 1])
-    kind0 = {"ExtrudedRing": "ring", "Cylinder": "cyl"}.get(src, "solid")
+    kind0 = {"ExtrudedRing": "ring", "ExtrudedRing6": "ring", "Cylinder": "cyl"}.get(src, "solid")
     end_kind = kind0
     inner_free = True   # contract / fill only where the inside of the ring is not already occupied
+    can_fill = src != "ExtrudedRing6"   # Cylinder.fill needs 8 segments
     while len(steps) < n - n_start and end_kind != "sphere":
-        cands = [k for k in CHAIN_STEPS if step_ok(end_kind, k) and (inner_free or k not in ("contract", "fill"))]
+        cands = [k for k in CHAIN_STEPS if step_ok(end_kind, k) and (inner_free or k not in ("contract", "fill"))
+                 and (can_fill or k != "fill")]
         name = rng.choice(cands)
         steps.append(name)
         if name == "expand":
@@ -633,6 +638,7 @@ def catalogue(thorough=False):
         ["Cylinder", "frustum", "elbow", "hemisphere"], ["Cylinder", "expand", "expand", "ring_chain"],
         ["ExtrudedRing", "fill", "cylinder", "expand"], ["ExtrudedRing", "contract", "fill", "hemisphere"],
         ["Elbow", "elbow", "cylinder:start", "hemisphere"], ["Frustum", "hemisphere", "cylinder:start", "hemisphere:start"],
+        ["ExtrudedRing6", "expand"], ["ExtrudedRing6", "contract", "ring_chain:start"],
     ]
     for ch in chains:
         add("Chain:" + ">".join(ch), "b_chain", steps=ch)
